@@ -240,6 +240,7 @@ VH_AREA(explain) {
             st.hit("cases.random_annotated");
         }
         auto relab = make_relabel(rng, nq, rng.chance(0.3));
+        if (a.replay.empty()) { Rng ru = rng.sub(777); if (ru.chance(0.2)) { c = unfused_object(c); st.hit("cases.unfused_object"); } }
         Circuit big = a.replay.empty() ? relabel(c, relab) : c;
         std::map<uint32_t, uint32_t> to_compact;
         Circuit comp = compact_circuit(big, &to_compact);
